@@ -181,3 +181,13 @@ pub fn build_recorded(r: Req) -> Result<EntryStrongPtr, (String, Option<Recorded
         Err(e) => Err((e.to_string(), rec.last_block.lock().unwrap().clone())),
     }
 }
+
+/// `global` = through the library's own global slot chain (what applications use; no recorder, so only the error
+/// text can be judged), otherwise through the recording copy of it
+pub fn build_either(r: Req, global: bool) -> Result<EntryStrongPtr, (String, Option<Recorded>)> {
+    if global {
+        build(r).map_err(|m| (m, None))
+    } else {
+        build_recorded(r)
+    }
+}
